@@ -179,7 +179,7 @@ def run_case(i, seed, tier):
     cfg = g.cfg(index=i + seed * 13)
     profile = common.PROFILES[(i // 2) % len(common.PROFILES)]
     nops = g.rng.choice([3, 6, 10, 16, 24])
-    if i % 5 == 2:
+    if i % 5 == 2 and i % 10 != 7:
         # El Torito: boot record, catalog, boot info table, hidden boot files
         from harness.props import c11
         cfg, pre, boot, post = c11.build(seed * 1000003 + i, tier)
@@ -191,11 +191,44 @@ def run_case(i, seed, tier):
         cfg, ops = c12.build(seed * 1000003 + i, valid_only=True)
         ops = [o for o in ops if o['op'] not in ('reopen', 'force_consistency', 'q_write')]
         profile = 'hybrid'
+    elif i % 12 == 5:
+        # Rock Ridge continuation blocks created and emptied between recomputations: 14 long names
+        # fill one block; entries of the later block(s) are removed again
+        g2 = Gen(seed * 1000003 + i, 'names')
+        cfg = g2.cfg(index=i + seed * 13, require=lambda c: c.rr is not None)
+        h = common.History(cfg, seed * 1000003 + i, 'names', max_size=3000)
+        n_ = g2.rng.choice([15, 16, 18, 29, 31])
+        added = []
+        for k in range(n_):
+            op = {'op': 'add_fp', 'cid': 400 + k, 'length': g2.rng.choice([0, 5, 2049]), 'iso_path': '/' + h.gen.iso_file_name(cfg.level),
+                  'rr_name': ('n%02d-' % k) + 'x' * g2.rng.choice([240, 244, 248])}
+            if h.apply(op).ok:
+                added.append(op['iso_path'])
+        victims = added[14:] if g2.rng.random() < 0.6 else g2.rng.sample(added, min(len(added), g2.rng.choice([1, 3, 6])))
+        for p_ in victims[:g2.rng.choice([1, 2, 4, 20])]:
+            h.apply({'op': 'rm_file', 'iso_path': p_})
+        h.extend(g2.rng.choice([0, 2]))
+        ops = list(h.ops)
+        h.sess.close()
+        profile = 'ce-blocks'
     else:
         h = common.History(cfg, seed * 1000003 + i, profile, max_size=10000)
         h.extend(nops)
         ops = list(h.ops)
         h.sess.close()
+    if profile in ('boot', 'hybrid') and (i // 10) % 2 == 0:
+        # a removal as the last layout-changing edit (validated by replaying through a History)
+        used = {o.get('bootfile_path') for o in ops if o['op'] == 'add_eltorito'}
+        cands = [o['iso_path'] for o in ops if o['op'] == 'add_fp' and o.get('iso_path') and o['iso_path'] not in used]
+        gone = {o.get('iso_path') for o in ops if o['op'] in ('rm_file', 'rm_hard_link')}
+        cands = [p_ for p_ in cands if p_ not in gone]
+        if cands:
+            hh = common.History(cfg, seed * 1000003 + i, 'std')
+            okay = all(hh.apply(o).ok for o in ops)
+            if okay and hh.apply({'op': 'rm_file', 'iso_path': cands[-1]}).ok:
+                ops = list(hh.ops)
+            hh.sess.close()
+    counters['profile:%s' % profile] = 1
     rng = random.Random(seed * 7919 + i)
     scheds = schedules_for(rng, ops, tier)
     vio = c01.dedup(check(cfg, ops, seed * 1000003 + i, scheds, counters))
